@@ -1,7 +1,7 @@
 (* C03 — stream framing: consumed ++ remainder = input; the result ignores trailing bytes;
    no proper prefix of a completely consumed encoding parses. *)
-From Model Require Import Bytes Prim Tables Cert Sig.
-From Proofs Require Import BytesLemmas PrimProofs Frame LeafProofs.
+From Model Require Import Bytes Prim Tables Cert KAC Sig.
+From Proofs Require Import BytesLemmas PrimProofs Frame LeafProofs KacRT OffProofs.
 Open Scope Z_scope.
 
 (* general: prefix-freeness is a consequence of append-invariance, for every parser *)
@@ -34,3 +34,34 @@ Theorem C03_certificate_extent : forall x c r, wf x -> read_certificate x = Ok (
 Proof. intros x c r W H. destruct (read_certificate_shape _ _ _ W H) as [_ [_ [B E]]]. auto. Qed.
 Theorem C03_string_append : forall s r, str_is_valid s = true -> read_i2pstring (s ++ r) = Ok (s, r).
 Proof. exact read_i2pstring_app. Qed.
+
+(* keys-and-cert / destination / router identity: appended bytes leave the remainder, keys,
+   padding, declared types and the serialisation unchanged (the key certificate's payload
+   view grows, as for the bare certificate); hence no proper prefix of a completely consumed
+   encoding parses *)
+Theorem C03_key_certificate_append : forall x k r y, wf (x ++ y) -> new_key_certificate x = Ok (k, r) ->
+  exists k', new_key_certificate (x ++ y) = Ok (k', r ++ y) /\ keycert_bytes k' = keycert_bytes k /\
+             kc_spk k' = kc_spk k /\ kc_cpk k' = kc_cpk k.
+Proof. exact new_key_certificate_AppendInv. Qed.
+Theorem C03_keys_and_cert_append : AppendInvR read_keys_and_cert kac_same.
+Proof. exact read_keys_and_cert_AppendInv. Qed.
+Theorem C03_destination_append : AppendInvR read_destination kac_same.
+Proof. exact read_destination_AppendInv. Qed.
+Theorem C03_router_identity_append : AppendInvR read_router_identity kac_same.
+Proof. exact read_router_identity_AppendInv. Qed.
+Theorem C03_keys_and_cert_prefix_free : forall w v, wf w -> read_keys_and_cert w = Ok (v, []) ->
+  forall k, (k < length w)%nat -> forall v' r', read_keys_and_cert (firstn k w) <> Ok (v', r').
+Proof. exact (AppendInvR_PrefixFree _ _ read_keys_and_cert_AppendInv). Qed.
+Theorem C03_destination_prefix_free : forall w v, wf w -> read_destination w = Ok (v, []) ->
+  forall k, (k < length w)%nat -> forall v' r', read_destination (firstn k w) <> Ok (v', r').
+Proof. exact (AppendInvR_PrefixFree _ _ read_destination_AppendInv). Qed.
+Theorem C03_router_identity_prefix_free : forall w v, wf w -> read_router_identity w = Ok (v, []) ->
+  forall k, (k < length w)%nat -> forall v' r', read_router_identity (firstn k w) <> Ok (v', r').
+Proof. exact (AppendInvR_PrefixFree _ _ read_router_identity_AppendInv). Qed.
+Print Assumptions C03_router_identity_prefix_free.
+
+Theorem C03_offline_signature_append : forall dt, AppendInv (fun d => read_offline_signature d dt).
+Proof. exact read_offline_AppendInv. Qed.
+Theorem C03_offline_signature_prefix_free : forall dt, PrefixFree (fun d => read_offline_signature d dt).
+Proof. intros dt. apply AppendInv_PrefixFree, read_offline_AppendInv. Qed.
+Print Assumptions C03_offline_signature_prefix_free.
